@@ -178,12 +178,41 @@ def registry_rule(rep, f):
     rep.floor("C06.d/loop", k, 1)
 
 
+SCOPE_WALKS = [
+    # function, file, fields that mark the top of the scope stack
+    ("ElemStack::mapPrefixToURI", "src/xercesc/internal/ElemStack.cpp", ("fStackTop",)),
+    ("WFElemStack::mapPrefixToURI", "src/xercesc/internal/ElemStack.cpp", ("fStackTop", "fTopPrefix")),
+    ("NamespaceScope::getNamespaceForPrefix", "src/xercesc/validators/schema/NamespaceScope.cpp", ("fStackTop",)),
+]
+
+
+def nearest_rule(rep):
+    from ..engines import scope
+    rep.rule("C06.e", "nearest enclosing declaration wins: the prefix lookups of the scanners' element stacks and of the schema "
+             "reader's namespace scope (ElemStack / WFElemStack::mapPrefixToURI, NamespaceScope::getNamespaceForPrefix) walk the "
+             "scope stack from its top downwards, and a match of the prefix id in a scope returns on every path (CFG: the true "
+             "edge of the `fPrefId == id` test leaves the function; statement tree: the loop over scopes is initialised from the "
+             "stack top and decrements)")
+
+    def hit(c):
+        return isinstance(c, list) and len(c) == 4 and c[0] == "b" and c[1] == "==" and any(
+            isinstance(x, list) and x and x[0] == "f" and x[1].endswith("::fPrefId") for side in (c[2], c[3]) for x in sx_walk(side))
+    tus = sorted({os.path.join(core.REPO, w[1]) for w in SCOPE_WALKS})
+    pat = "^(" + "|".join(re.escape(w[0]) for w in SCOPE_WALKS) + ")$"
+    g = core.run_xa(tus, cfg=pat, st=pat, flat=False)
+    n = 0
+    for q, file, tops in SCOPE_WALKS:
+        n += scope.nearest_wins(rep, "C06.e", g, q, hit, tops, file)
+    rep.floor("C06.e", n, 4)
+
+
 def run(rep):
     f = core.library_facts()
     rep.units.update(os.path.relpath(t, core.REPO) for t in f.tus)
     sax2_rule(rep)
     dispatch_rule(rep, f)
     registry_rule(rep, f)
+    nearest_rule(rep)
     diag.run(rep, f, "C06")
     rep.undecided += ["that the URI bound to each name is the right one (scoping arithmetic in ElemStack): value-level",
                       "DOM lookupNamespaceURI/lookupPrefix results"]
